@@ -61,6 +61,7 @@ type KDC struct {
 	princs          map[string]*Principal
 	RequirePreauth  bool
 	TicketLifetime  time.Duration
+	ServiceLifetime time.Duration // lifetime of service tickets (0 = TicketLifetime)
 	RenewLifetime   time.Duration
 	Referrals       map[string]string // service host suffix -> next realm (referral TGT krbtgt/NEXT@Realm)
 	CrossKeys       map[string]map[int32]types.EncryptionKey // realm -> keys of krbtgt/realm@Realm
@@ -378,6 +379,12 @@ func (k *KDC) handleTGS(raw []byte) []byte {
 		return krbErr(k.Realm, sname, 25, nil)
 	}
 	tkey, ok := k.tgtKey(ap.Ticket)
+	if !ok && types.IsFlagSet(&req.ReqBody.KDCOptions, 30) {
+		// renewal of a service ticket: the ticket presented is encrypted under the service's key
+		if p := k.Principal(ap.Ticket.SName.NameString); p != nil && ap.Ticket.Realm == k.Realm {
+			tkey, ok = p.Keys[ap.Ticket.EncPart.EType]
+		}
+	}
 	if !ok {
 		return krbErr(k.Realm, sname, 45, nil)
 	}
@@ -447,6 +454,9 @@ func (k *KDC) handleTGS(raw []byte) []byte {
 	skey := randKey(set)
 	renewable := types.IsFlagSet(&req.ReqBody.KDCOptions, 8)
 	end, renew := k.lifetimes(now, req.ReqBody.Till, req.ReqBody.RTime, renewable)
+	if k.ServiceLifetime > 0 && !(len(issuedSName.NameString) > 0 && issuedSName.NameString[0] == "krbtgt") {
+		end = now.Add(k.ServiceLifetime).Truncate(time.Second)
+	}
 	if end.After(tgt.EndTime) && !renewal {
 		end = tgt.EndTime
 	}
